@@ -39,6 +39,16 @@ acknowledge requests itself with MV (ISR),v (v without timer bits).  The verdict
 "the target moved during the step ==> the status bit is set after the step" -- except in a step that executed such a
 store (observed: address of the executed instruction): there ISR bits 0/1 are not judged on PCE500Emulator (tick
 first, store second) and only "fired ==> bit set" is kept on CoreRuntime (store first, tick second).
+
+Bulk entry points (round 4): the hosts do not single-step, they call PCE500Emulator.run(n) / CoreRuntime::step(n).
+A "run" flavour case is an irq-flavour case (firmware-style idle loops: MV (ISR),v + HALT, WAITs, NOPs; handler;
+IMR generated) that carries "chunkings": ways to chop the same instruction sequence into bulk calls (sizes 1..50,
+uniform or mixed; host actions -- acknowledgements, snapshots, resets, key activity -- only between calls).  The case is
+executed single-stepped (judged as above) and once per chunking with ONE run(n)/step(n) call per chunk; at the end of
+every chunk cycle counter, next targets and ISR bits 0/1 must equal what single-stepping the same implementation
+produced after the same number of instructions, and (PCE500Emulator, where the real TimerScheduler.advance calls are
+recorded) the timers must have fired at the same cycles: the firing sequence is a function of the cycles that went
+by, not of how the host chops execution into calls.
 """
 
 from __future__ import annotations
@@ -267,6 +277,126 @@ def gen_irq_case(seed: int, mti: int, sti: int, enabled: bool, idx: int, snapsho
             "handler": handler, "imr": st.choice(IMR_CHOICES), "steps": steps}
 
 
+CHUNK_SIZES = (1, 1, 2, 2, 3, 3, 5, 7, 7, 13, 20, 50)
+UNIFORM_CHUNKS = (2, 3, 7, 50)
+
+
+def gen_run_case(seed: int, mti: int, sti: int, enabled: bool, idx: int, snapshots: bool,
+                 resets: bool) -> Dict[str, Any]:
+    """'run' flavour: the hosts' bulk entry points.  Same machine set-up as the irq flavour (ROM image, looping main
+    program, handler, vectors, IMR generated -- masked and unmasked), the main program is a firmware-style idle loop
+    (acknowledge ISR with MV (ISR),v, HALT, now and then WAITs / NOP runs), the handler may acknowledge at its entry.
+    The step list is generated chunk by chunk: host actions (acknowledgements, snapshot round trips, resets) sit on the
+    first step of a chunk only, so the same case can be executed with one run(n)/step(n) call per chunk and,
+    as the reference, single-stepped.  A second chunking is uniform (n = 2, 3, 7 or 50, cut at host actions)."""
+    st = Stream(seed, 0xC134B, mti, sti, idx, int(enabled))
+    ps = [p for p in (mti, sti) if p > 0] or [3]
+    lo_p, hi_p = min(ps), max(ps)
+
+    def wait_len() -> int:
+        p = st.choice(ps)
+        return min(255, max(1, st.choice((1, 2, p - 1, p, p + 1, 2 * p + 1, lo_p + hi_p, hi_p + 1,
+                                          1 + st.below(40)))))
+
+    def ack() -> List[int]:
+        return list(ISR_STORE) + [st.choice((0, 0, 0, 0, 0, 0, 0, st.u32() & 0xF8))]
+
+    prog: List[int] = []
+    idle_style = st.below(4)          # 0: every HALT is preceded by an acknowledgement, 1-2: most, 3: few
+    for _ in range(2 + st.below(5)):
+        k = st.below(10)
+        if k <= 1:
+            prog += [NOP] * (1 + st.below(4))
+        elif k <= 3:
+            prog += [MV_IL, wait_len(), WAIT]
+        else:
+            if idle_style == 0 or (idle_style <= 2 and st.chance(3, 4)) or st.chance(1, 4):
+                prog += ack()
+            prog += [HALT]
+            if st.chance(1, 3):
+                prog += [NOP]
+    if HALT not in prog:
+        prog += ack() + [HALT]
+    prog += [JR_BACK, len(prog) + 2]
+    handler: List[int] = []
+    if st.chance(1, 2):
+        handler += ack()
+    shape = st.below(8)
+    if shape == 0:
+        pass
+    elif shape <= 3:
+        handler += [NOP] * (1 + st.below(8))
+    else:
+        for _ in range(1 + st.below(3)):
+            if st.chance(1, 3):
+                handler += [NOP] * (1 + st.below(5))
+            p = st.choice(ps)
+            n = st.choice((1, 2, max(1, p - 1), p, p + 1, 2 * p + 1, hi_p + 1, lo_p + hi_p, 1 + st.below(40)))
+            handler += [MV_IL, min(255, n), WAIT]
+        handler += [MV_IL, 1 + st.below(3)]
+    handler += [RETI]
+    nsteps = 60 + st.below(160)
+    clear_mode = st.below(4)
+    size_mode = st.below(4)           # 0: mixed sizes, 1: mostly long calls, 2: one size, 3: mixed with a tail call
+    one = st.choice((2, 3, 5, 7, 13, 50))
+    steps: List[List[int]] = []
+    chunks: List[int] = []
+    nsnap = nreset = 0
+    while len(steps) < nsteps:
+        left = nsteps - len(steps)
+        if size_mode == 1:
+            n = st.choice((13, 20, 50, 50, 7))
+        elif size_mode == 2:
+            n = one
+        elif size_mode == 3 and len(chunks) >= 3 and st.chance(1, 6):
+            n = left
+        else:
+            n = st.choice(CHUNK_SIZES)
+        n = min(n, left)
+        if clear_mode == 0:
+            clear = 0
+        elif clear_mode == 1:
+            clear = st.choice((0, 0, 3, 3, 1, 2))
+        elif clear_mode == 2:
+            clear = 3
+        else:
+            clear = 3 if st.chance(1, 5) else 0
+        action = 0
+        if chunks:
+            if snapshots and nsnap < 4 and st.chance(1, 6):
+                action, nsnap = 1, nsnap + 1
+            elif resets and nreset < 2 and st.chance(1, 14):
+                action, nreset = 2, nreset + 1
+        steps.append([clear, action])
+        steps.extend([0, 0] for _ in range(n - 1))
+        chunks.append(n)
+    return {"layer": "machine", "flavour": "irq", "bulk": True, "mti": mti, "sti": sti, "enabled": enabled,
+            "prog": prog, "handler": handler, "imr": st.choice(IMR_CHOICES), "steps": steps,
+            "chunkings": [chunks, [st.choice(UNIFORM_CHUNKS)]]}
+
+
+def _host_action(stp: List[Any]) -> bool:
+    return bool(int(stp[0]) or int(stp[1]) or (len(stp) > 2 and stp[2]))
+
+
+def chunk_plan(steps: List[List[Any]], sizes: List[int]) -> List[int]:
+    """Effective call sizes for a chunking: the size list is cycled over the step list (a one-element list means a
+    uniform chunking), cut at the end of the steps and at every step that carries a host action (those happen between
+    calls only).  Whatever steps / sizes a shrink or a hand-written replay case contains, the plan is executable."""
+    sizes = [max(1, int(n)) for n in sizes] or [1]
+    out: List[int] = []
+    k, i = 0, 0
+    while k < len(steps):
+        n = min(sizes[i % len(sizes)], len(steps) - k)
+        m = 1
+        while m < n and not _host_action(steps[k + m]):
+            m += 1
+        out.append(m)
+        k += m
+        i += 1
+    return out
+
+
 def _boundaries(code: List[int]) -> List[int]:
     """instruction boundaries of a generated code sequence (templates: 09 nn, 13 nn, 32 CC FC nn, else 1 byte)"""
     out, i = [], 0
@@ -354,6 +484,12 @@ def add_keyboard(case: Dict[str, Any], seed: int, tag: int, idx: int) -> Dict[st
 
 
 def gen_from_config(seed: int, cfg: Tuple[Any, ...]) -> Dict[str, Any]:
+    if cfg and cfg[0] == "run":
+        case = gen_run_case(seed, *cfg[1:])
+        if mix32(seed, int(cfg[1]), int(cfg[2]), int(cfg[4]), 0x4B2) % 2 == 0:
+            # key activity between calls (every host action cuts the chunk it falls into, see chunk_plan)
+            case = add_keyboard(case, seed, 2, int(cfg[4]))
+        return case
     if cfg and cfg[0] == "irq":
         return add_keyboard(gen_irq_case(seed, *cfg[1:]), seed, 1, int(cfg[4]))
     return add_keyboard(gen_machine_case(seed, *cfg), seed, 0, int(cfg[3]))
@@ -388,6 +524,19 @@ def plan(seed: int, tier: str) -> List[Tuple[Any, ...]]:
         big = lambda: st.choice((13, 16, 17, 31, 32, 33, 64, 100, 127, 128, 200, 255, 256, 257, 300))
         mti, sti = ((big(), 0), (0, big()), (big(), big()), (1 + st.below(12), big()))[a]
         out.append(("irq", mti, sti, st.below(12) != 0, 1000 + i, st.below(2) == 0, st.below(3) == 0))
+    # bulk entry points: run(n) / step(n) against single stepping (round 4)
+    per_pair = 1 if tier == "quick" else 4
+    for mti in range(13):
+        for sti in range(13):
+            for i in range(per_pair):
+                h = mix32(seed, mti, sti, i, 0x4B1)
+                out.append(("run", mti, sti, (h % 13) != 0, i, (h >> 8) % 3 == 0, (h >> 12) % 4 == 0))
+    st = Stream(seed, 0x3AC4)
+    for i in range(40 if tier == "quick" else 300):
+        a = st.below(4)
+        big = lambda: st.choice((13, 16, 17, 31, 32, 33, 64, 100, 127, 128, 200, 255, 256, 257, 300))
+        mti, sti = ((big(), 0), (0, big()), (big(), big()), (1 + st.below(12), big()))[a]
+        out.append(("run", mti, sti, st.below(14) != 0, 1000 + i, st.below(3) == 0, st.below(4) == 0))
     return out
 
 
@@ -409,7 +558,9 @@ def is_irq(case: Dict[str, Any]) -> bool:
     return case.get("flavour") == "irq"
 
 
-def run_py_machine(case: Dict[str, Any], snap_path: str) -> Any:
+def run_py_machine(case: Dict[str, Any], snap_path: str, chunks: Optional[List[int]] = None) -> Any:
+    """chunks = None: one PCE500Emulator.step() per step.  chunks = effective call sizes (chunk_plan): the host
+    actions of the first step of a chunk, then ONE PCE500Emulator.run(n) call, one observation per chunk."""
     from pce500.emulator import PCE500Emulator
     from sc62015.pysc62015.emulator import RegisterName
     from sc62015.pysc62015.constants import INTERNAL_MEMORY_START
@@ -423,12 +574,28 @@ def run_py_machine(case: Dict[str, Any], snap_path: str) -> Any:
     imr = int(case.get("imr", 0)) & 0xFF
     exec_flags: List[bool] = []
     exec_pcs: List[int] = []
+    fires: List[List[int]] = []
 
     def fresh() -> Any:
         e = PCE500Emulator(perfetto_trace=False, save_lcd_on_exit=False)
         if image is not None:
             e.load_rom(image)          # the ROM is part of the machine, not of a snapshot
         orig = e.cpu.execute_instruction
+        sched = e._scheduler
+        sched_advance = type(sched).advance
+
+        def advance(cycle_count: int, _s: Any = sched, _orig: Any = sched_advance) -> Any:
+            # observation only: at which cycles did the real TimerScheduler.advance report a firing?
+            got = list(_orig(_s, cycle_count))
+            fl = 0
+            for src in got:
+                name = str(getattr(src, "name", src)).upper()
+                fl |= 1 if "MTI" in name else (2 if "STI" in name else 4)
+            if fl:
+                fires.append([int(cycle_count), fl])
+            return got
+
+        sched.advance = advance        # instance attribute, this emulator's scheduler only
 
         def execute_instruction(pc: int, _e: Any = e, _orig: Any = orig) -> Any:
             # observation only: was the instruction executed inside an interrupt handler?
@@ -462,7 +629,18 @@ def run_py_machine(case: Dict[str, Any], snap_path: str) -> Any:
     if "kbirq" in case:
         emu._kb_irq_enabled = bool(case["kbirq"])     # a snapshot field; the maintainers' tests set it directly
 
-    for stp in case["steps"]:
+    all_steps = case["steps"]
+    if chunks is None:
+        calls = [(k, None) for k in range(len(all_steps))]
+    else:
+        calls, k = [], 0
+        for n in chunks:
+            if k >= len(all_steps):
+                break
+            calls.append((k, int(n)))
+            k += int(n)
+    for k0, bulk in calls:
+        stp = all_steps[k0]
         clear, action = int(stp[0]), int(stp[1])
         if clear:
             cur = emu.memory.read_byte(isr_addr) & 0xFF
@@ -496,19 +674,29 @@ def run_py_machine(case: Dict[str, Any], snap_path: str) -> Any:
         in_before = bool(emu._in_interrupt)
         del exec_flags[:]
         del exec_pcs[:]
-        emu.step()
-        # [.., in_exec, address of the instruction this step executed (None: none, e.g. idle HALT cycle)]
-        obs.append(look() + [exec_flags[-1] if exec_flags else in_before, exec_pcs[-1] if exec_pcs else None])
+        del fires[:]
+        if bulk is None:
+            emu.step()
+        else:
+            emu.run(bulk)              # the bulk entry point: up to `bulk` instructions in one call
+        # [.., in_exec, address of the instruction this step executed (None: none, e.g. idle HALT cycle),
+        #  instructions asked of this call, [[cycle, fired timers], ...] reported by the scheduler during it]
+        obs.append(look() + [exec_flags[-1] if exec_flags else in_before, exec_pcs[-1] if exec_pcs else None,
+                             1 if bulk is None else bulk, [list(f) for f in fires]])
     return {"obs": obs}
 
 
-def run_rust_machine(cases: List[Dict[str, Any]], snap_path: str) -> List[Any]:
+def run_rust_machine(cases: List[Dict[str, Any]], snap_path: str,
+                     plans: Optional[List[Optional[List[int]]]] = None) -> List[Any]:
+    """plans[i] = None: CoreRuntime::step(1) per step; else the effective call sizes: one step(n) call per chunk."""
     out: List[Any] = []
     for i in range(0, len(cases), 32):
         reqs = []
-        for c in cases[i:i + 32]:
+        for j, c in enumerate(cases[i:i + 32]):
             r = dict({k: c[k] for k in ("mti", "sti", "enabled", "prog", "steps")}, base=BASE, snap_path=snap_path,
                      stack=STACK_TOP)
+            if plans is not None and plans[i + j] is not None:
+                r["chunks"] = list(plans[i + j])
             if "timer_base" in c:
                 r["timer_base"] = c["timer_base"]
             if "kbirq" in c:
@@ -725,6 +913,125 @@ def judge_machine(case: Dict[str, Any], impl: str, res: Any) -> Tuple[List[Viola
     return out, facts
 
 
+BULK_NAME = {"py-machine": "PCE500Emulator.run(n)", "rust-machine": "CoreRuntime::step(n)"}
+
+
+def judge_chunking(case: Dict[str, Any], sizes: List[int], plan_: List[int], impl: str, single: Any,
+                   bulk: Any) -> Tuple[List[Violation], Dict[str, Any]]:
+    """The same instruction sequence, once single-stepped and once through the bulk entry point with one call per
+    chunk, on the SAME implementation.  At the end of every chunk the timers must be where single stepping left them
+    after the same number of instructions: cycle counter, next targets of the active timers, ISR bits 0/1, and (where
+    the harness can see the scheduler's own reports: PCE500Emulator) the cycles at which the timers fired during the
+    chunk.  Grounding: the statement quantifies over the ways the *cycle counter* advances; how the host chops the
+    instruction stream into run()/step() calls is not one of them (run(n) is `while count < n: step()`,
+    step(n) is `for _ in 0..n`), so the firing sequence may not depend on it.  Only the first differing chunk is
+    reported (per timer).  Nothing is judged once the single-stepped reference left the generated program or once the
+    cycle counters differ while the timers agree (cycle accounting is not C13's subject)."""
+    out: List[Violation] = []
+    facts = {"bulk_calls": 0, "bulk_max": 0, "bulk_delivery_mid_call": 0, "bulk_handler_fire_window": 0,
+             "bulk_halt_idle": 0, "bulk_fire_in_halt_idle": 0, "bulk_fire_mid_call": 0, "bulk_other_mismatch": 0,
+             "bulk_calls_compared": 0, "bulk_offgrid_pair": 0}
+    vcase = dict(case, chunkings=[list(sizes)])
+
+    def ok(res: Any) -> bool:
+        return isinstance(res, dict) and "obs" in res and not res.get("error") and not res.get("panic")
+
+    if not ok(single):
+        return out, facts                       # reported by judge_machine
+    if not ok(bulk):
+        msg = str(bulk.get("panic") or bulk.get("error") if isinstance(bulk, dict) else bulk)
+        out.append(Violation("crash", impl, "machine raised/panicked in bulk execution", vcase, msg[:300]))
+        return out, facts
+    periods = (int(case["mti"]), int(case["sti"]))
+    active = [bool(case["enabled"]) and p > 0 for p in periods]
+    irq = is_irq(case)
+    regions = ((MAIN, MAIN + len(case["prog"])), (HANDLER, HANDLER + len(case["handler"]))) if irq else ()
+    per_step = [o for o in single["obs"] if isinstance(o, list)]
+    per_call = [o for o in bulk["obs"] if isinstance(o, list)]
+    if len(per_step) != len(case["steps"]) or len(per_call) != len(plan_):
+        out.append(Violation("crash", impl, "observation stream out of step", vcase,
+                             f"{len(per_step)} step / {len(per_call)} call observations for {len(case['steps'])} "
+                             f"steps / {len(plan_)} calls"))
+        return out, facts
+    dead = [False, False]
+    k = 0
+    prev: Optional[List[Any]] = None
+    for ci, n in enumerate(plan_):
+        seg = per_step[k:k + n]
+        ref, got = seg[-1], per_call[ci]
+        if irq and any(not any(lo_ <= int(o[5]) <= hi_ for lo_, hi_ in regions) for o in seg):
+            break                               # the reference left main program and handler: not judged further
+        if n > 1:
+            facts["bulk_calls"] += 1
+            facts["bulk_max"] = max(facts["bulk_max"], n)
+            irqs0 = int(prev[7]) if prev is not None else 0
+            tg0 = [int(prev[2 + ti]) if prev is not None else None for ti in range(2)]
+            delivered_at = None
+            for j, o in enumerate(seg):
+                moved = [ti for ti in range(2) if active[ti] and tg0[ti] is not None and int(o[2 + ti]) != tg0[ti]]
+                if moved and j < n - 1:
+                    facts["bulk_fire_mid_call"] += 1
+                was_halted = bool((seg[j - 1] if j else (prev or o))[4])
+                if was_halted and bool(o[4]):
+                    facts["bulk_halt_idle"] += 1
+                if moved and was_halted:
+                    facts["bulk_fire_in_halt_idle"] += 1
+                    if len(moved) == 1 and all(active):
+                        # one timer fired in an idle HALT cycle on which the other one has no boundary
+                        facts["bulk_offgrid_pair"] += 1
+                if int(o[7]) > irqs0 and delivered_at is None and j < n - 1:
+                    delivered_at = j
+                    facts["bulk_delivery_mid_call"] += 1
+                irqs0 = int(o[7])
+                tg0 = [int(o[2 + ti]) for ti in range(2)]
+            if delivered_at is not None:
+                # a boundary of an active timer went by inside the handler before the call returned
+                # (gated: the target of an active timer lies behind the cycle counter while the handler still runs)
+                if any(bool(o[6]) and any(active[ti] and int(o[0]) >= int(o[2 + ti]) for ti in range(2))
+                       for o in seg[delivered_at:]):
+                    facts["bulk_handler_fire_window"] += 1
+        facts["bulk_calls_compared"] += 1
+        where_call = (f"call#{ci} = {BULK_NAME.get(impl, impl)} with n={n} covering steps {k}..{k + n - 1} "
+                      f"(mti={case['mti']} sti={case['sti']} enabled={case['enabled']}"
+                      f"{' imr=%#04x' % (int(case.get('imr', 0)) & 0xFF) if irq else ''})")
+        differs = False
+        for ti in range(2):
+            if not active[ti] or dead[ti]:
+                continue
+            bit = 1 << ti
+            symptom = None
+            if int(got[2 + ti]) != int(ref[2 + ti]):
+                symptom = "bulk execution left a different next target than single-stepping the same instructions"
+                detail = f"target {got[2 + ti]} after the call, {ref[2 + ti]} single-stepped"
+            elif (int(got[1]) ^ int(ref[1])) & bit:
+                symptom = "bulk execution left a different status bit than single-stepping the same instructions"
+                detail = f"ISR {int(got[1]):#04x} after the call, {int(ref[1]):#04x} single-stepped"
+            elif len(got) > 11 and all(len(o) > 11 for o in seg):
+                f_ref = [f[0] for o in seg for f in o[11] if f[1] & bit]
+                f_got = [f[0] for f in got[11] if f[1] & bit]
+                if f_ref != f_got:
+                    symptom = "bulk execution fired at different cycles than single-stepping the same instructions"
+                    detail = f"fired at cycles {f_got[:8]}, single-stepped at {f_ref[:8]}"
+            if symptom is not None:
+                differs = True
+                dead[ti] = True
+                out.append(Violation("chunking", f"{impl}:{TIMERS[ti]}", symptom, vcase,
+                                     f"{where_call}: {detail}; cycle counter {got[0]} / {ref[0]}, halted {got[4]} / "
+                                     f"{ref[4]}, pc {int(got[5]):#x} / {int(ref[5]):#x}, in handler {got[6]} / "
+                                     f"{ref[6]}, deliveries {got[7]} / {ref[7]} (bulk / single-stepped)"))
+        if dead[0] and dead[1]:
+            break
+        if differs or any(dead):
+            # a timer already went its own way: the continuation is no longer the same cycle sequence
+            break
+        if int(got[0]) != int(ref[0]) or [got[i] for i in (4, 5, 6, 7)] != [ref[i] for i in (4, 5, 6, 7)]:
+            facts["bulk_other_mismatch"] += 1
+            break
+        prev = ref
+        k += n
+    return out, facts
+
+
 def snap_path_for(tag: str) -> str:
     d = os.path.join(ROOT, "rust", "target", "c13-tmp")
     os.makedirs(d, exist_ok=True)
@@ -735,19 +1042,39 @@ def evaluate_machine(cases: List[Dict[str, Any]]) -> List[Tuple[List[Violation],
     selftest()
     sp_rs, sp_py = snap_path_for("rs"), snap_path_for("py")
     rs_all = run_rust_machine(cases, sp_rs)
-    res: List[Tuple[List[Violation], Dict[str, Any]]] = []
-    for case, rs in zip(cases, rs_all):
+    # bulk entry points: every chunking of a case is one more execution on each machine
+    bulk_jobs: List[Tuple[int, List[int], List[int]]] = []
+    for ci, case in enumerate(cases):
+        for sizes in case.get("chunkings", ()):
+            bulk_jobs.append((ci, list(sizes), chunk_plan(case["steps"], list(sizes))))
+    rs_bulk = (run_rust_machine([cases[ci] for ci, _, _ in bulk_jobs], sp_rs, [pl for _, _, pl in bulk_jobs])
+               if bulk_jobs else [])
+
+    def py_run(case: Dict[str, Any], plan_: Optional[List[int]]) -> Any:
         try:
             with py_watchdog("PCE500Emulator machine history"):
-                py = run_py_machine(case, sp_py)
+                return run_py_machine(case, sp_py, plan_)
         except HarnessError:
             raise
         except Exception as exc:  # noqa: BLE001
-            py = {"error": f"{type(exc).__name__}: {exc}"}
+            return {"error": f"{type(exc).__name__}: {exc}"}
+
+    res: List[Tuple[List[Violation], Dict[str, Any]]] = []
+    for ci, (case, rs) in enumerate(zip(cases, rs_all)):
+        py = py_run(case, None)
         v1, f1 = judge_machine(case, "py-machine", py)
         v2, f2 = judge_machine(case, "rust-machine", rs)
         facts = {k: max(f1.get(k, 0), f2.get(k, 0)) for k in set(f1) | set(f2)}
-        res.append((v1 + v2, facts))
+        vs = v1 + v2
+        for (cj, sizes, plan_), rsb in zip(bulk_jobs, rs_bulk):
+            if cj != ci:
+                continue
+            v3, f3 = judge_chunking(case, sizes, plan_, "py-machine", py, py_run(case, plan_))
+            v4, f4 = judge_chunking(case, sizes, plan_, "rust-machine", rs, rsb)
+            vs += v3 + v4
+            for k in set(f3) | set(f4):
+                facts[k] = facts.get(k, 0) + max(f3.get(k, 0), f4.get(k, 0))
+        res.append((vs, facts))
     for p in (sp_rs, sp_py):
         try:
             os.remove(p)
